@@ -203,10 +203,76 @@ Scan4(l, i) ==
        ELSE <<TextNode(<<EscChar(l[i])>>)>> \o Scan4(l, i + 1)
 Inline4(l) == Scan4(l, 1)
 
+(* ---- autolinks (spec section 6.5) and the remaining raw HTML forms (6.6) -------------------------------------------------
+   URI autolink: `<`, a scheme (an ASCII letter followed by 1-31 letters, digits, `+`, `.`, `-`), `:`, zero or more characters
+   other than space, `<`, `>`, and `>`.  Email autolink: `<`, one or more local characters, `@`, labels separated by `.`
+   (a label starts and ends with a letter or digit and holds letters, digits and `-`; the 63 character limit is not modelled:
+   no line of an alphabet reaches it), `>`.  Processing instruction `<?` .. `?>`, declaration `<!` NAME white space .. `>`, CDATA section
+   `<![CDATA[` .. `]]>`.  Autolinks are tried first; what is none of these is text. *)
+IsUpper5(c) == c \in {"A", "B", "X"}
+IsAlnum5(c) == IsLetter(c) \/ IsDigit4(c) \/ IsUpper5(c)
+IsSchemeCh(c) == IsAlnum5(c) \/ c \in {"+", ".", "-"}
+RECURSIVE SchemeEnd(_, _)        \* last index of the run of scheme characters that starts at i
+SchemeEnd(l, i) == IF i < Len(l) /\ IsSchemeCh(l[i + 1]) THEN SchemeEnd(l, i + 1) ELSE i
+RECURSIVE UriEnd(_, _)           \* first index at or after i that cannot belong to the URI
+UriEnd(l, i) == IF i <= Len(l) /\ l[i] \notin {" ", "<", ">"} THEN UriEnd(l, i + 1) ELSE i
+UriAutolinkEnd(l, i) ==          \* index of the closing `>` of a URI autolink starting at i, or 0
+  IF At(l, i) # "<" \/ ~(IsLetter(At(l, i + 1)) \/ IsUpper5(At(l, i + 1))) THEN 0
+  ELSE LET s == SchemeEnd(l, i + 1)
+           n == s - i IN
+       IF n < 2 \/ n > 32 \/ At(l, s + 1) # ":" THEN 0
+       ELSE LET e == UriEnd(l, s + 2) IN IF At(l, e) = ">" THEN e ELSE 0
+IsLocalCh(c) == IsAlnum5(c) \/ c \in {".", "!", "#", "$", "%", "&", "'", "*", "+", "/", "=", "?", "^", "_", "`", "{", "|", "}", "~", "-"}
+RECURSIVE LocalEnd(_, _)
+LocalEnd(l, i) == IF i <= Len(l) /\ IsLocalCh(l[i]) THEN LocalEnd(l, i + 1) ELSE i
+RECURSIVE LabelRun(_, _)
+LabelRun(l, i) == IF i <= Len(l) /\ (IsAlnum5(l[i]) \/ l[i] = "-") THEN LabelRun(l, i + 1) ELSE i
+RECURSIVE DomainEnd(_, _)        \* first index after a well-formed domain that starts at i, or 0
+DomainEnd(l, i) ==
+  LET j == LabelRun(l, i) IN
+  IF j = i \/ ~IsAlnum5(l[i]) \/ ~IsAlnum5(l[j - 1]) THEN 0
+  ELSE IF At(l, j) = "." THEN DomainEnd(l, j + 1) ELSE j
+EmailAutolinkEnd(l, i) ==
+  IF At(l, i) # "<" THEN 0
+  ELSE LET a == LocalEnd(l, i + 1) IN
+       IF a = i + 1 \/ At(l, a) # "@" THEN 0
+       ELSE LET d == DomainEnd(l, a + 1) IN IF d # 0 /\ At(l, d) = ">" THEN d ELSE 0
+RECURSIVE FindSeq(_, _, _)       \* first index k >= i with l[k .. k+Len(w)-1] = w, or 0
+FindSeq(l, i, w) == IF i + Len(w) - 1 > Len(l) THEN 0 ELSE IF SubSeq(l, i, i + Len(w) - 1) = w THEN i ELSE FindSeq(l, i + 1, w)
+PIEnd(l, i) == IF At(l, i) = "<" /\ At(l, i + 1) = "?"
+               THEN LET k == FindSeq(l, i + 2, <<"?", ">">>) IN IF k = 0 THEN 0 ELSE k + 1 ELSE 0
+CDataOpen == <<"<", "!", "[", "C", "D", "A", "T", "A", "[">>
+CDataEnd(l, i) == IF i + 8 <= Len(l) /\ SubSeq(l, i, i + 8) = CDataOpen
+                  THEN LET k == FindSeq(l, i + 9, <<"]", "]", ">">>) IN IF k = 0 THEN 0 ELSE k + 2 ELSE 0
+RECURSIVE UpperEnd(_, _)
+UpperEnd(l, i) == IF i < Len(l) /\ IsUpper5(l[i + 1]) THEN UpperEnd(l, i + 1) ELSE i
+(* the declarations on which CommonMark 0.29 (`<!`, upper-case name, white space, text, `>`) and 0.31 (`<!`, letter, text, `>`) agree
+   are the former; lines that only 0.31 accepts are left to the corroborator's veto *)
+DeclEnd(l, i) == IF At(l, i) = "<" /\ At(l, i + 1) = "!" /\ IsUpper5(At(l, i + 2))
+                 THEN LET n == UpperEnd(l, i + 2) IN IF At(l, n + 1) # " " THEN 0 ELSE FindCh(l, n + 2, ">") ELSE 0
+(* what a renderer writes into href: characters outside the URI-safe set are percent-encoded, then `&` is escaped *)
+EncUri(c) == CASE c = "\\" -> "%5C" [] c = "[" -> "%5B" [] c = "]" -> "%5D" [] c = "\"" -> "%22" [] c = "`" -> "%60"
+               [] c = "^" -> "%5E" [] c = "{" -> "%7B" [] c = "|" -> "%7C" [] c = "}" -> "%7D" [] c = "&" -> "&amp;" [] OTHER -> c
+FirstNonZero(s) == IF \E k \in 1..Len(s) : s[k] # 0 THEN s[CHOOSE k \in 1..Len(s) : s[k] # 0 /\ \A j \in 1..(k - 1) : s[j] = 0] ELSE 0
+RECURSIVE Scan5(_, _)
+Scan5(l, i) ==
+  IF i > Len(l) THEN <<>>
+  ELSE LET u == UriAutolinkEnd(l, i)
+           m == EmailAutolinkEnd(l, i)
+           e == FirstNonZero(<<OpenTagEnd(l, i), ClosingTagEnd(l, i), PIEnd(l, i), CDataEnd(l, i), DeclEnd(l, i)>>) IN
+       IF u # 0 THEN <<[TextNode(SubSeq(l, i + 1, u - 1)) EXCEPT !.t = "auto"]>> \o Scan5(l, u + 1)
+       ELSE IF m # 0 THEN <<[TextNode(SubSeq(l, i + 1, m - 1)) EXCEPT !.t = "mail"]>> \o Scan5(l, m + 1)
+       ELSE IF e # 0 THEN <<[TextNode(SubSeq(l, i, e)) EXCEPT !.t = "raw"]>> \o Scan5(l, e + 1)
+       ELSE <<TextNode(<<EscChar(l[i])>>)>> \o Scan5(l, i + 1)
+Inline5(l) == Scan5(l, 1)
+Map(s, F(_)) == [k \in 1..Len(s) |-> F(s[k])]
+
 Piece(nd) ==
   CASE nd.t = "text" -> nd.s
     [] nd.t = "code" -> <<"<code>">> \o nd.s \o <<"</code>">>
     [] nd.t = "raw" -> nd.s
+    [] nd.t = "auto" -> <<"<a href=\"">> \o Map(nd.s, EncUri) \o <<"\">">> \o Map(nd.s, EscChar) \o <<"</a>">>
+    [] nd.t = "mail" -> <<"<a href=\"mailto:">> \o Map(nd.s, EncUri) \o <<"\">">> \o Map(nd.s, EscChar) \o <<"</a>">>
     [] nd.t = "delim" -> Repeat(nd.ch, nd.n)
     [] nd.t = "open" /\ nd.tag = "a" -> <<"<a href=\"">> \o [k \in 1..Len(nd.s) |-> EncChar(nd.s[k])] \o <<"\">">>
     [] nd.t = "close" /\ nd.tag = "a" -> <<"</a>">>
